@@ -12,6 +12,7 @@
 package main
 
 import (
+	"bytes"
 	"context"
 	"crypto/sha1"
 	"encoding/json"
@@ -32,6 +33,7 @@ import (
 	"github.com/golang/protobuf/proto"
 	"github.com/marekgalovic/anndb/cluster"
 	"github.com/marekgalovic/anndb/index"
+	"github.com/marekgalovic/anndb/index/space"
 	amath "github.com/marekgalovic/anndb/math"
 	pb "github.com/marekgalovic/anndb/protobuf"
 	"github.com/marekgalovic/anndb/storage"
@@ -58,6 +60,7 @@ type Scenario struct {
 	CrashPoint   string `json:"crashpoint"`   // ready|send1|presave|saved|snapinstalled|applied|send2|preadvance|advanced|snapshot
 	Crash2       int    `json:"crash2"`       // a second node crashed (idle) together with the first: minority of 5
 	RestartPeers string `json:"restartpeers"` // "all": loadRaft(partition node ids) as the allocator does | "none": loadRaft(nil)
+	SlowSnapMs   int    `json:"slowsnapms"`   // serializing the index for a snapshot takes this long (0 = as fast as it is)
 	SnapshotAt   int    `json:"snapshotat"`   // request a local snapshot on every node after this many client writes (0 = never)
 	Partition    int    `json:"partition"`    // isolate this node (1..N) during the fault window (0 = none)
 	Follower     bool   `json:"follower"`     // issue client writes through a follower's Dataset as well
@@ -448,8 +451,10 @@ func itemId(k int) uuid.UUID {
 	return u
 }
 
-func dump(ds *storage.Dataset) [][]interface{} {
-	st := ds.VerifPartitionIndex(0).VerifDump()
+func dump(ds *storage.Dataset) [][]interface{} { return dumpIndex(ds.VerifPartitionIndex(0)) }
+
+func dumpIndex(ix *index.Hnsw) [][]interface{} {
+	st := ix.VerifDump()
 	out := [][]interface{}{}
 	for _, v := range st.Vertices {
 		if v.Stored {
@@ -490,6 +495,13 @@ func main() {
 	ids := []uint64{}
 	for i := 1; i <= sc.N; i++ {
 		ids = append(ids, uint64(i))
+	}
+	if sc.SlowSnapMs > 0 {
+		storage.VerifGate = func(point string, i int) {
+			if point == "snapshot.serialize" {
+				time.Sleep(time.Duration(sc.SlowSnapMs) * time.Millisecond)
+			}
+		}
 	}
 	w.meta = pb.Dataset{Id: uuid.NewV4().Bytes(), Dimension: 2, Space: pb.Space_Euclidean, PartitionCount: 1, ReplicationFactor: uint32(sc.N),
 		Partitions: []*pb.Partition{{Id: pid.Bytes(), NodeIds: ids}}}
@@ -933,6 +945,10 @@ func main() {
 		why = "replica contents still differ 15 s after the faults stopped"
 	}
 	close(stopTicks)
+	if sc.SlowSnapMs > 0 {
+		// a serialization that is still under way ends before the stores are read
+		time.Sleep(time.Duration(2*sc.SlowSnapMs+50) * time.Millisecond)
+	}
 	for _, n := range w.nodes {
 		n.mu.Lock()
 		ds := n.ds
@@ -941,6 +957,15 @@ func main() {
 			var st etcdRaft.Status
 			if g := ds.VerifRaft(0); g != nil {
 				st = g.VerifNode().Status()
+			}
+			// the snapshot in the node's store, as a restart or a lagging follower would load it
+			if sn, err := wal.NewBadgerWAL(n.db, w.pid).Snapshot(); err == nil && sn.Metadata.Index > 0 && len(sn.Data) > 0 {
+				ix := index.NewHnsw(2, space.NewEuclidean())
+				if err := ix.Load(bytes.NewReader(sn.Data), false); err == nil {
+					emit(event{"ev": "snapcontent", "node": n.idx, "idx": int(sn.Metadata.Index), "items": dumpIndex(ix)})
+				} else {
+					emit(event{"ev": "panic", "node": n.idx, "what": "stored snapshot does not load: " + err.Error()})
+				}
 			}
 			emit(event{"ev": "final", "node": n.idx, "items": dump(ds), "term": int(st.Term), "commit": int(st.Commit), "applied": int(st.Applied)})
 		}
